@@ -3,6 +3,7 @@
   Model: Model/Proto/Mesh.lean (bus, xbus, star, xstar); loop-free topologies: Model/Proto/MeshLemmas.lean (Forest).
 -/
 import Model.Proto.MeshLemmas
+import Model.Proto.CommonLemmas
 namespace Props.C08
 open Model Model.Proto
 
@@ -18,44 +19,8 @@ theorem bus_send_never_echoes (s : Mesh.State) (hf : s.flavor = .xbus) (hc : s.c
   simp only [List.mem_cons] at hev
   rcases hev with hev | hev
   · cases hev
-  · have : ∃ k, (k, Ev.tx pipe hd bd) ∈ (fanout s.pipes (fun p => Mesh.Flavor.xbus.isStar || Mesh.others (beDec (bytesOf h)) p) ([], bytesOf b)).2 := by
-      simp only [sortByKey, List.mem_map] at hev
-      obtain ⟨x, hx, hx2⟩ := hev
-      refine ⟨x.1, ?_⟩
-      have hmem : ∀ (l acc : List (Nat × Ev)), x ∈ l.foldl (fun acc y => insertSorted y acc) acc → x ∈ l ∨ x ∈ acc := by
-        intro l
-        induction l with
-        | nil => intro acc h; exact Or.inr h
-        | cons y ys ih =>
-          intro acc h
-          simp only [List.foldl_cons] at h
-          rcases ih _ h with h1 | h1
-          · exact Or.inl (List.mem_cons_of_mem _ h1)
-          · have : ∀ (l : List (Nat × Ev)), x ∈ insertSorted y l → x = y ∨ x ∈ l := by
-              intro l
-              induction l with
-              | nil => intro h; simp [insertSorted] at h; exact Or.inl h
-              | cons z zs ihz =>
-                intro h
-                simp only [insertSorted] at h
-                split at h
-                · simp only [List.mem_cons] at h
-                  rcases h with h | h | h
-                  · exact Or.inl h
-                  · exact Or.inr (by simp [h])
-                  · exact Or.inr (by simp [h])
-                · simp only [List.mem_cons] at h
-                  rcases h with h | h
-                  · exact Or.inr (by simp [h])
-                  · rcases ihz h with h2 | h2
-                    · exact Or.inl h2
-                    · exact Or.inr (by simp [h2])
-            rcases this acc h1 with h2 | h2
-            · exact Or.inl (by simp [h2])
-            · exact Or.inr h2
-      rcases hmem _ [] hx with h1 | h1
-      · rw [← hx2]; exact h1
-      · simp at h1
+  · have : ∃ k, (k, Ev.tx pipe hd bd) ∈ (fanout s.pipes (fun p => Mesh.Flavor.xbus.isStar || Mesh.others (beDec (bytesOf h)) p) ([], bytesOf b)).2 :=
+      (mem_sortByKey _ _).mp hev
     obtain ⟨k, hk⟩ := this
     obtain ⟨p, _, hsel, heq⟩ := fanout_events _ _ _ _ hk
     simp only [Prod.mk.injEq, Ev.tx.injEq] at heq
